@@ -127,7 +127,7 @@ pub fn check(c: &IndelCase, seed: u64, dir: &str) -> Result<(usize, usize), Stri
         // "no entry node" exit: nothing found at all
         return if premise && o.stderr_tail.contains("panicked") { Err(format!("ska lo panicked: {}", o.stderr_tail)) } else { Ok((if premise { c.segs.len() } else { 0 }, 0)) };
     }
-    let recs = lo::parse_indels(&o.indels_vcf);
+    let recs = lo::parse_indels_named(&o.indels_vcf, &lo::sample_names(c.n()))?;
     let mut matched = std::collections::BTreeSet::new();
     for r in &recs {
         let m = judge_record(c, r)?;
